@@ -195,7 +195,16 @@ func (s *Session) Open() error {
 	case "mem", "app":
 		co := s.collOptions()
 		if s.D.Mode == "app" {
-			s.app = NewAppStore()
+			if s.app == nil {
+				s.app = NewAppStore()
+			} else {
+				// Reopen: the application's own store outlives the collection and is handed to the new
+				// one (top-level collections only: NewCollection does not restore child collections)
+				if len(s.D.Paths) > 1 {
+					return fmt.Errorf("Reopen with an application lower level is only replayed for behaviours without child collections")
+				}
+				co.LowerLevelInit = s.app.Current()
+			}
 			co.LowerLevelUpdate = s.app.Update
 		}
 		c, err := moss.NewCollection(co)
